@@ -95,7 +95,7 @@ func (repo *Repository) NewBatchObjectIter(ctx context.Context) (*BatchObjectIte
 					// Read the object contents plus the trailing LF
 					// (which is discarded below while creating the
 					// `ObjectRecord`):
-					data := make([]byte, batchHeader.ObjectSize+1)
+					data := make([]byte, uint64(batchHeader.ObjectSize)+1)
 					if _, err := io.ReadFull(f, data); err != nil {
 						return fmt.Errorf(
 							"reading object data from 'git cat-file' for %s '%s': %w",
